@@ -75,6 +75,15 @@ def run(pid, tier, seed, replay=None):
             new.append((inv, v))
     for fid, (f, n) in sorted(known_hits.items()):
         print("KNOWN-FINDING: property=%s %s [%s, %s, %d scenario(s) this run]" % (pid, f["what"], fid, f["invariant"], n))
+    # C10: the effective probe parameters (pure function) are validated as records
+    if pid == "C10":
+        pv, pstats = probe_param_records(pid, binary, seed, tier)
+        for v in pv:
+            for inv in v["invs"]:
+                new.append((inv, v))
+        tv["states"] += pstats["states"]
+        tv["transitions"] += pstats["lines"]
+        tv["coverage"]["probeParamRecords"] = pstats["lines"]
     # design model
     models = []
     for m in (cfg.get("model", []) if tier == "quick" else cfg.get("model_thorough", [])):
@@ -126,6 +135,16 @@ def run(pid, tier, seed, replay=None):
             V.log("vacuous antecedents (property never exercised): %s" % vac)
             return 2
     return rc
+
+
+def probe_param_records(pid, binary, seed, tier):
+    wd = V.workdir(pid, "probe")
+    out = os.path.join(wd, "probe.ndjson")
+    r = subprocess.run([binary, "probe", "-seed", str(seed), "-tier", tier, "-out", out], env=V.goenv(), capture_output=True, text=True)
+    if r.returncode != 0:
+        raise V.Inconclusive("probe record harness failed")
+    res = V.run_tlc_trace(out, os.path.join(wd, "tlc"), "PCConfigTrace")
+    return res["violations"], res
 
 
 def invariant_names():
